@@ -21,6 +21,16 @@ CHECKS["C08"] = dict(category="exploration",
            "origin sections are compared with model containment. Sampled layouts, exhaustive queries per small layout.",
       note="Trusted: C04 containment/overlap model. Candidate/region creation failures are C05/C06's business and are excluded (counted) here.",
       design="3/C08")
+CHECKS["C01"] = dict(category="exploration",
+      technique="Hypothesis grammar-based rule generator + bounded enumeration of condition shapes x hit assignments x cutoff-boundary gaps, differential against an independent reference evaluator",
+      text="Condition trees generated from the documented grammar are parsed by the real parser and evaluated on generated gene/hit "
+           "arrangements (gaps at cutoff-1/cutoff/cutoff+1, across the origin, origin-spanning genes, bitscores around thresholds); met, "
+           "reason profiles and anchoring are compared per gene with an independent evaluator of the statement's formula semantics, and "
+           "apply_cluster_rules' reported genes/domains are checked in both directions. ~100 condition shapes x all 64 hit assignments "
+           "x 9 gap pairs x topologies are enumerated completely; deeper trees are sampled.",
+      note="Trusted: the reference evaluator (vlib/rules.py, ~80 lines) and the C04 distance model. minimum() counts per-gene distinct "
+           "profiles summed over genes in range (module docstring reading).",
+      design="3/C01")
 NOT_YET = {}
 
 def main():
